@@ -1,3 +1,216 @@
 package main
 
-func runHistoryChild(spec string) {}
+import (
+	"bufio"
+	"bytes"
+	"fmt"
+	"os"
+	"os/exec"
+	"strings"
+
+	"github.com/islishude/bip39"
+)
+
+// execOp runs one protocol op on the implementation.
+func execOp(op string) string {
+	f := strings.Fields(op)
+	var a, b int64
+	switch f[0] {
+	case "enc":
+		fmt.Sscan(f[1], &a)
+		return implEnc(a, unhx(f[2]))
+	case "chk":
+		fmt.Sscan(f[1], &a)
+		return implChk(a, string(unhx(f[2])))
+	case "seed":
+		return implSeed(string(unhx(f[1])), string(unhx(f[2])))
+	case "lstr":
+		fmt.Sscan(f[1], &a)
+		return implStr(a)
+	case "newm":
+		fmt.Sscan(f[1], &a)
+		fmt.Sscan(f[2], &b)
+		return implNewm(a, b, f[3])
+	}
+	return "bad-op"
+}
+
+// runHistoryChild: a fresh process executing a history read from stdin, one answer per line.  At
+// the end every earlier seed result is re-checked against a copy taken when it was returned.
+func runHistoryChild(kind string) {
+	if kind == "conc" {
+		runConcChild()
+		return
+	}
+	sc := bufio.NewScanner(os.Stdin)
+	sc.Buffer(make([]byte, 1<<20), 1<<24)
+	w := bufio.NewWriter(os.Stdout)
+	defer w.Flush()
+	type kept struct{ live, copy []byte }
+	var seeds []kept
+	for sc.Scan() {
+		op := sc.Text()
+		if strings.HasPrefix(op, "seed ") {
+			f := strings.Fields(op)
+			s := bip39.MnemonicToSeed(string(unhx(f[1])), string(unhx(f[2])))
+			seeds = append(seeds, kept{s, append([]byte(nil), s...)})
+			fmt.Fprintln(w, "ok "+hx(s))
+			continue
+		}
+		fmt.Fprintln(w, execOp(op))
+	}
+	altered := 0
+	for _, k := range seeds {
+		if !bytes.Equal(k.live, k.copy) {
+			altered++
+		}
+	}
+	fmt.Fprintf(w, "end altered-earlier-results=%d\n", altered)
+}
+
+func (c *Ctx) runHistory(class string, ops []string) {
+	self, _ := os.Executable()
+	cmd := exec.Command(self, "-child", "hist")
+	cmd.Stdin = strings.NewReader(strings.Join(ops, "\n") + "\n")
+	var errb bytes.Buffer
+	cmd.Stderr = &errb
+	out, err := cmd.Output()
+	lines := strings.Split(strings.TrimRight(string(out), "\n"), "\n")
+	c.rep.count(class)
+	hist := strings.Join(ops, " ; ")
+	if len(hist) > 1500 {
+		hist = hist[:1500] + " …"
+	}
+	if err != nil || len(lines) != len(ops)+1 {
+		c.rep.violate(Violation{Kind: "property", Class: class, Op: "history: " + hist, Impl: fmt.Sprintf("child failed: %v %s", err, errb.String()[:min(300, errb.Len())])})
+		return
+	}
+	if lines[len(ops)] != "end altered-earlier-results=0" {
+		c.rep.violate(Violation{Kind: "property", Class: class, Op: "history: " + hist, Impl: lines[len(ops)], Detail: "a result returned earlier was altered by a later call"})
+	}
+	for i, op := range ops {
+		m, s := c.drv.Ask(op)
+		impl := lines[i]
+		c.rep.Evaluations++
+		c.rep.nontrivial(fmt.Sprintf("%s@%d/%s", op, i, class))
+		var same func(a, b string) bool = sameAns
+		specAns := s
+		switch strings.Fields(op)[0] {
+		case "chk":
+			ss, rest := field(s, "ss")
+			_, rest = field(rest, "ws")
+			if ss != "1" {
+				continue
+			}
+			specAns = rest
+			same = sameChk
+			if specAns == "reject" {
+				if impl == "ok" {
+					c.rep.violate(Violation{Kind: "impl≠spec", Class: class, Op: fmt.Sprintf("history (%d ops) then op #%d: %s  || history: %s", len(ops), i, op, hist), Impl: impl, Spec: specAns,
+						Detail: "unsupported language accepted after this history"})
+				}
+				continue
+			}
+		case "seed":
+			ss, rest := field(s, "ss")
+			if ss != "1" {
+				continue
+			}
+			specAns = rest
+		case "newm":
+			if strings.HasPrefix(s, "ok ") {
+				specAns = s
+				same = func(a, b string) bool { return strings.HasPrefix(a, b+" reads=") }
+			} else if s == "err io" {
+				same = func(a, b string) bool { return strings.HasPrefix(a, "err io:") }
+			}
+		}
+		if specAns != "-" && !same(impl, specAns) {
+			c.rep.violate(Violation{Kind: "impl≠spec", Class: class, Op: fmt.Sprintf("history (%d ops) then op #%d: %s  || history: %s", len(ops), i, op, hist), Impl: impl, Model: m, Spec: specAns,
+				Detail: "the result differs from the history-free reference"})
+		} else if strings.Fields(op)[0] != "newm" && !same(impl, m) && !sameChk(impl, m) {
+			c.rep.stale(Violation{Kind: "impl≠model", Class: class, Op: op, Impl: impl, Model: m, Spec: s})
+		}
+	}
+}
+
+func init() { props["C13"] = propC13 }
+
+func (c *Ctx) randomOp(valid map[int]string) string {
+	li := c.rng.Intn(10)
+	l := int64(langVals[li])
+	switch c.rng.Intn(12) {
+	case 0, 1:
+		return fmt.Sprintf("enc %d %s", l, hx(c.randBytes(entSizes[c.rng.Intn(5)])))
+	case 2:
+		return fmt.Sprintf("enc %d %s", l, hx(c.randBytes(c.rng.Intn(40))))
+	case 3, 4, 5:
+		return fmt.Sprintf("chk %d %s", l, hx([]byte(valid[li])))
+	case 6:
+		// wrong language / unsupported value on a valid sentence
+		ul := []int64{-1, 10, 100, 10000, int64(langVals[c.rng.Intn(10)])}[c.rng.Intn(5)]
+		return fmt.Sprintf("chk %d %s", ul, hx([]byte(valid[c.rng.Intn(10)])))
+	case 7:
+		return fmt.Sprintf("chk %d %s", l, hx([]byte(valid[li]+" x")))
+	case 8:
+		return fmt.Sprintf("seed %s %s", hx([]byte(valid[li])), hx([]byte(c.randUnicode(2))))
+	case 9:
+		return fmt.Sprintf("lstr %d", c.rng.Intn(14)-2)
+	case 10:
+		n := []int64{12, 15, 18, 21, 24, 13, 0}[c.rng.Intn(7)]
+		return fmt.Sprintf("newm %d %d %s", n, l, hx(c.randBytes(40))+":-")
+	default:
+		return fmt.Sprintf("newm %d %d %s", 12, l, hx(c.randBytes(5))+":eof")
+	}
+}
+
+func propC13(c *Ctx) {
+	r := c.rep
+	r.Rule = "call histories executed in FRESH PROCESSES (one child process per history), every answer compared with the history-free reference (the specification / the model from its initial state): every ordered pair of first-validated languages incl. unsupported values (a lookup table built under the wrong guard shows here), and random histories of 1..200 calls mixing all six exported functions, all languages, failures and unsupported values; entropy slices are passed with spare capacity inside a guarded buffer and must come back unchanged; earlier seed results are re-checked at the end of each history. Non-trivial = distinct (op, position, class) evaluated."
+	valid := map[int]string{}
+	for li := range langVals {
+		valid[li] = strings.ReplaceAll(c.specSentence(int64(langVals[li]), c.randBytes(16)), "　", " ")
+	}
+	vals := []int64{}
+	sent := []string{}
+	for li := range langVals {
+		vals = append(vals, int64(langVals[li]))
+		sent = append(sent, valid[li])
+	}
+	// unsupported values, validated with an English sentence (English is list()'s fallback)
+	for _, u := range []int64{-1, 10, 100} {
+		vals = append(vals, u)
+		sent = append(sent, valid[2])
+	}
+	for i := range vals {
+		for j := range vals {
+			if c.quick && i >= 10 && j >= 10 {
+				continue
+			}
+			ops := []string{
+				fmt.Sprintf("chk %d %s", vals[i], hx([]byte(sent[i]))),
+				fmt.Sprintf("chk %d %s", vals[j], hx([]byte(sent[j]))),
+				fmt.Sprintf("chk %d %s", vals[i], hx([]byte(sent[j]))),
+				fmt.Sprintf("chk %d %s", vals[j], hx([]byte(sent[i]))),
+				fmt.Sprintf("enc %d %s", vals[j], hx(c.randBytes(16))),
+			}
+			c.runHistory("ordered-pair-of-first-used-languages", ops)
+		}
+	}
+	nh := 25 * c.scale
+	if !c.quick {
+		nh = 400
+	}
+	for k := 0; k < nh; k++ {
+		n := 1 + c.rng.Intn(40)
+		if k%5 == 0 {
+			n = 100 + c.rng.Intn(100)
+		}
+		ops := make([]string, n)
+		for i := range ops {
+			ops[i] = c.randomOp(valid)
+		}
+		c.runHistory("random-history", ops)
+	}
+	r.sample("fresh process: chk Korean <valid ko> ; chk -1 <valid en> ; chk Korean <valid en> ; chk -1 <valid ko> ; enc -1 <16 bytes> -> each equals the fresh-state reference")
+}
